@@ -71,6 +71,21 @@ fn digest(s: &str) -> String {
 
 // ---------------------------------------------------------------- constraint matrices (C04a)
 pub fn cm(rec: &mut Recorder, rng: &mut Rng, thorough: bool) {
+    // the largest block sizes (sparse back-end only: the dense matrix would need L^2 bits): the rows whose
+    // parameters behave differently from the small ones (S >= 2P from K' = 28845 on, the last row 56403)
+    let bigs: Vec<u32> = if thorough { vec![28549, 28845, 29138, 40398, 50511, 56403] } else { vec![*rng.pick(&[28845u32, 29138, 40398]), 56403] };
+    for k in bigs {
+        let kp = rq::extended_source_block_symbols(k);
+        let (s, h) = (rq::num_ldpc_symbols(k) as usize, rq::num_hdpc_symbols(k) as usize);
+        let isis: Vec<u32> = (0..kp).collect();
+        let isis2 = isis.clone();
+        let r = guarded(move || { let (m, hd) = rq::generate_constraint_matrix::<SparseBinaryMatrix>(k, &isis2); canon_matrix(&m, &hd, s, h) });
+        match r {
+            Ok(a) => rec.put(&format!("cm {k} {}", list(&isis)), &digest(&a)),
+            Err(_) => { rec.impl_violation(format!("the constraint matrix of a block of K={k} symbols cannot be built (panic): no encoding symbol can be produced for this block size")); rec.put(&format!("cm {k} {}", list(&isis)), "err"); }
+        }
+        rec.count("cm_largest_blocks");
+    }
     let n = if thorough { 400 } else { 60 };
     for it in 0..n {
         let k = if it < 8 { [1u32, 9, 10, 11, 12, 13, 26, 101][it] } else { pick_k(rng, if thorough { 1200 } else { 260 }) };
@@ -186,6 +201,37 @@ pub fn enc(rec: &mut Recorder, rng: &mut Rng, thorough: bool) {
 }
 
 // ---------------------------------------------------------------- repair stream addressing (C18)
+// plans for different block sizes must never be mixed up, whatever was encoded before in this process: pairs of
+// Table-2 rows that share a column value (the systematic index J, S, H or W) are encoded one after the other through
+// the process-wide plan cache and compared with encoders built from freshly generated plans
+pub fn repair_plan_history(rec: &mut Recorder, rng: &mut Rng, thorough: bool) {
+    let table: Vec<(u32, u32)> = rq::SYSTEMATIC_INDICES_AND_PARAMETERS.iter().map(|r| (r.0 as u32, r.1 as u32)).collect();
+    let mut pairs: Vec<(u32, u32)> = vec![];
+    for (i, a) in table.iter().enumerate() { for b in table[i + 1..].iter() { if a.1 == b.1 && b.0 <= if thorough { 1200 } else { 700 } { pairs.push((a.0, b.0)); } } }
+    pairs.sort_by_key(|p| p.1);
+    let cap = if checked_build() { 2 } else if thorough { 12 } else { 4 };
+    for (ka, kb) in pairs.into_iter().take(cap) {
+        for (first, second) in [(ka, kb), (kb, ka)] {
+            // K just below the table value too (same K', another cache key)
+            let k2 = if rng.chance(1, 2) { second } else { second - 1 };
+            let t = 2u16;
+            let (da, db) = (rng.bytes(first as usize * t as usize), rng.bytes(k2 as usize * t as usize));
+            let r = guarded(move || {
+                let _warm = SourceBlockEncoder::new(0, &cfg_for(first, t, 1, 1), &da);
+                let cfg = cfg_for(k2, t, 1, 1);
+                let e = SourceBlockEncoder::new(1, &cfg, &db);
+                let fresh = SourceBlockEncoder::with_encoding_plan(1, &cfg, &db, &SourceBlockEncodingPlan::generate(k2 as u16));
+                (e.repair_packets(0, 6), fresh.repair_packets(0, 6), e.repair_packets(1000, 2), fresh.repair_packets(1000, 2))
+            });
+            match r {
+                Ok((a, b, c, d)) => if a != b || c != d { rec.impl_violation(format!("after a block of {first} symbols was encoded, SourceBlockEncoder::new for {k2} symbols produces repair packets that differ from those of an encoder with a freshly generated plan")); },
+                Err(_) => rec.impl_violation(format!("after a block of {first} symbols was encoded, SourceBlockEncoder::new / repair_packets for a block of {k2} symbols panics (a plan for another block size was used)")),
+            }
+            rec.count("plan_history_pairs");
+        }
+    }
+}
+
 pub fn repair(rec: &mut Recorder, rng: &mut Rng, thorough: bool) {
     let n = if thorough { 300 } else { 50 };
     for it in 0..n {
@@ -356,6 +402,12 @@ pub fn object(rec: &mut Recorder, rng: &mut Rng, thorough: bool) {
             f = kt * t as u64 - rng.below(t as u64);
             rec.count("object_ks_is_table_row");
         }
+        // keep single blocks moderate (the model solves them by Gauss-Jordan; checked builds re-verify in O(L^3))
+        {
+            let cap: u64 = if checked_build() { 500 } else { 2500 };
+            let kt = (f + t as u64 - 1) / t as u64;
+            if (kt + z as u64 - 1) / z as u64 > cap { f = cap * z as u64 * t as u64 - rng.below(t as u64); rec.count("object_block_size_capped"); }
+        }
         // data: random, or with equal consecutive blocks (all zero, constant, periodic in the block length)
         let mut data = rng.bytes(f as usize);
         match rng.below(6) {
@@ -426,6 +478,37 @@ pub fn object(rec: &mut Recorder, rng: &mut Rng, thorough: bool) {
                 rec.put(&format!("objenc {f} {t} {z} {nn} {al} {} {r}", hex(&data)), "err");
             }
         }
+    }
+}
+
+// objects of more than 2^16 symbols in all (tiny symbols, many blocks): block boundaries against Partition[Kt, Z]
+pub fn object_many_symbols(rec: &mut Recorder, rng: &mut Rng, thorough: bool) {
+    let mut cases: Vec<(u64, u16, u8)> = vec![(131071, 2, 255), (210001, 3, 200), (65535, 1, 3), (65536, 1, 3)];
+    if thorough { cases.extend([(131069u64, 2u16, 255u8), (131073, 2, 254), (65537, 1, 2), (300000, 1, 7), (1 << 20, 4, 19)]); }
+    for _ in 0..(if thorough { 40 } else { 2 }) {
+        let t = rng.range(1, 4) as u16;
+        let kt = rng.range(60000, if thorough { 400000 } else { 140000 });
+        let z = rng.range(((kt + 56402) / 56403).max(2), 255) as u8;
+        cases.push((kt * t as u64 - rng.below(t as u64), t, z));
+    }
+    for (f, t, z) in cases {
+        let data = vec![0u8; f as usize];
+        let r = guarded(move || { let cfg = Oti::new(f, t, z, 1, 1); raptorq::calculate_block_offsets(&data, &cfg) });
+        let kt = (f + t as u64 - 1) / t as u64;
+        let (kl, ks) = ((kt + z as u64 - 1) / z as u64, kt / z as u64);
+        let zl = kt - ks * z as u64;
+        let mut want = vec![];
+        let mut at = 0u64;
+        for b in 0..z as u64 { let kb = if b < zl { kl } else { ks }; want.push(((at * t as u64) as usize, ((at + kb) * t as u64) as usize)); at += kb; }
+        match &r {
+            Ok(offs) => if *offs != want {
+                let i = (0..want.len().min(offs.len())).find(|i| offs[*i] != want[*i]).unwrap_or(0);
+                rec.impl_violation(format!("block boundaries differ from Partition[Kt={kt}, Z={z}] for F={f} T={t}: block {i} is {:?}, RFC 4.4.1.2 gives {:?}", offs.get(i), want.get(i)));
+            },
+            Err(_) => rec.impl_violation(format!("calculate_block_offsets panics for the valid configuration F={f} T={t} Z={z} (Kt={kt} symbols)")),
+        }
+        rec.put(&format!("offsets {f} {f} {t} {z} 1 1"), &match r { Ok(offs) => offs.iter().map(|(a, b)| format!("{a}-{b}")).collect::<Vec<_>>().join(","), Err(_) => "err".into() });
+        rec.count("object_more_than_2^16_symbols");
     }
 }
 
@@ -617,6 +700,39 @@ pub fn decblk_directed(rec: &mut Recorder, rng: &mut Rng, thorough: bool) {
             rec.count("directed_identical_row_flood");
             run_block_history(rec, k, t, 1, 1, cfg, &data, batches, it % 2 == 0, 3);
         }
+    }
+}
+
+
+// malformed packets (C12): a payload shorter than the symbol size must never be read past its end - whatever
+// the decoder does with such a packet, it cannot produce K*T bytes from fewer payload bytes
+pub fn decblk_malformed(rec: &mut Recorder, rng: &mut Rng, thorough: bool) {
+    for it in 0..(if thorough { 300 } else { 48 }) {
+        let k = rng.range(2, 30) as u32;
+        let (t, nn, al) = if it % 2 == 0 { let mut x = pick_tnal(rng, 32); for _ in 0..30 { if x.1 > 1 { break; } x = pick_tnal(rng, 32); } x } else { (rng.range(2, 40) as u16, 1, 1) };
+        if t < 2 { continue; }
+        let data = rng.bytes(k as usize * t as usize);
+        let cfg = cfg_for(k, t, nn, al);
+        let enc = SourceBlockEncoder::new(0, &cfg, &data);
+        let mut pk = enc.source_packets();
+        let victim = rng.below(k as u64) as usize;
+        let cut = rng.range(1, t as u64 - 1) as usize;
+        let with_repair = it % 3 == 2;
+        if with_repair { let drop = (victim + 1) % k as usize; if drop != victim { pk.remove(drop); } pk.extend(enc.repair_packets(0, 3)); }
+        let vi = pk.iter().position(|p| p.payload_id().encoding_symbol_id() == victim as u32).unwrap();
+        let short = pk[vi].data()[..t as usize - cut].to_vec();
+        pk[vi] = EncodingPacket::new(pk[vi].payload_id().clone(), short);
+        rng.shuffle(&mut pk);
+        let one_call = it % 4 < 2;
+        let pk2 = pk.clone();
+        let r = guarded(move || {
+            let mut dec = SourceBlockDecoder::new(0, &cfg, k as u64 * t as u64);
+            if one_call { dec.decode(pk2) } else { let mut out = None; for p in pk2 { let o = dec.decode(vec![p]); if o.is_some() { out = o; } } out }
+        });
+        if let Ok(Some(b)) = &r {
+            rec.impl_violation(format!("block decoder returned {} bytes although source symbol {victim} was delivered {cut} byte(s) short (K={k} T={t} N={nn} Al={al}, {}): the missing bytes were read from outside the packet's payload", b.len(), if with_repair { "with repair symbols" } else { "all source symbols" }));
+        }
+        rec.count(match &r { Ok(Some(_)) => "malformed_short_payload_answered", Ok(None) => "malformed_short_payload_none", Err(_) => "malformed_short_payload_refused" });
     }
 }
 
@@ -907,12 +1023,17 @@ pub fn linear(rec: &mut Recorder, rng: &mut Rng, thorough: bool) {
 pub fn linear_wide(rec: &mut Recorder, rng: &mut Rng, thorough: bool) {
     let mut ts: Vec<u16> = vec![32767, 32769, 65535, 40001, 16385, 4099, 8191];
     if thorough { ts.extend([65533u16, 49153, 32771, 24577, 12289, 33333]); }
-    for t in ts {
-        let k = rng.range(4, 9) as u32;
+    // … and blocks whose intermediate-symbol slab is large (many symbols AND wide symbols: L*T of 8 MiB and more)
+    let mut shapes: Vec<(u32, u16)> = ts.iter().map(|t| (0u32, *t)).collect();
+    if !checked_build() { shapes.push((rng.range(126, 150) as u32, 65535)); if thorough { shapes.push((500, 16400)); shapes.push((1050, 9001)); } }
+    for (k0, t) in shapes {
+        let k = if k0 == 0 { rng.range(4, 9) as u32 } else { k0 };
+        if k0 != 0 { rec.count("linear_large_slab"); }
         let tt = t as usize;
         let a = rng.bytes(k as usize * tt);
         let lost: Vec<u32> = { let mut v: Vec<u32> = (0..k).collect(); rng.shuffle(&mut v); v.truncate(rng.range(1, 3) as usize); v };
-        let cols: Vec<usize> = vec![0, tt - 1, tt - 2, tt / 2, rng.below(t as u64) as usize];
+        let mut cols: Vec<usize> = vec![0, tt - 1, tt - 2, tt / 2, rng.below(t as u64) as usize];
+        if k0 != 0 { cols = vec![0, tt - 1, tt * 3 / 4, rng.below(t as u64) as usize]; }
         let (a2, l2) = (a.clone(), lost.clone());
         let r = guarded(move || {
             let cfg = cfg_for(k, t, 1, 1);
@@ -998,7 +1119,10 @@ pub fn overhead(rec: &mut Recorder, rng: &mut Rng, thorough: bool) {
                 if mixed {
                     let ns = rng.below(k as u64) as usize;
                     while set.len() < ns { set.insert(rng.below(k as u64) as u32); }
+                    // now and then symbols from the very end of the id space (their internal ids pass 2^24 when the block is padded)
+                    if rng.chance(1, 6) { for _ in 0..rng.range(1, 3) { set.insert((1u32 << 24) - 1 - rng.below((kp - k + 2) as u64) as u32); } rec.count("overhead_top_of_id_space"); }
                     while set.len() < k as usize + h { set.insert(k + (rng.next() % ((1u64 << 24) - k as u64)) as u32); }
+                    while set.len() > k as usize + h { let last = *set.iter().next().unwrap(); set.remove(&last); }
                 }
                 while set.len() < k as usize + h { set.insert((rng.next() & 0xFF_FFFF) as u32); }
                 let esis: Vec<u32> = set.into_iter().collect();
@@ -1052,6 +1176,16 @@ pub fn overhead(rec: &mut Recorder, rng: &mut Rng, thorough: bool) {
     }
 }
 
+// the public-API workload alone (the std side of the comparison with the no_std build of the crate)
+pub fn workload_only(rec: &mut Recorder, thorough: bool, outdir: &str, seed: u64) {
+    let lines = crate::workload::run(seed, !thorough);
+    std::fs::write(format!("{outdir}/workload.txt"), lines.join("\n") + "\n").unwrap();
+    for l in &lines {
+        if l.ends_with("correct=false") || l.contains("WRONG") || l.contains("roundtrip=false") { rec.impl_violation(format!("workload case fails: {l}")); }
+        rec.count("workload_lines");
+    }
+}
+
 // ---------------------------------------------------------------- configuration independence (C07)
 pub fn configs(rec: &mut Recorder, rng: &mut Rng, thorough: bool, outdir: &str, seed: u64) {
     use crate::workload;
@@ -1060,7 +1194,7 @@ pub fn configs(rec: &mut Recorder, rng: &mut Rng, thorough: bool, outdir: &str, 
     // (1) the public-API workload, identical text in every build of every harness
     let lines = workload::run(seed, !thorough);
     std::fs::write(format!("{outdir}/workload.txt"), lines.join("\n") + "\n").unwrap();
-    for l in &lines { if l.ends_with("correct=false") { rec.impl_violation(format!("workload case decodes to wrong bytes: {l}")); } }
+    for l in &lines { if l.ends_with("correct=false") || l.contains("WRONG") || l.contains("roundtrip=false") { rec.impl_violation(format!("workload case decodes to wrong bytes: {l}")); } }
     // (2) tie to the model + per-configuration comparison
     let cases = workload::cases(seed, !thorough);
     for c in &cases {
